@@ -40,6 +40,8 @@ pub enum TOp {
     ReadSec(u8),
     /// hold a write guard: read, spin, set
     WriteSec(u8),
+    /// hold a write guard and only read through it
+    WriteSecRo(u8),
     NextNow,
     Poll,
     /// poll up to n times, waiting (briefly) to be woken after each Pending (free-running only)
@@ -334,6 +336,20 @@ impl ThreadCtx {
                 let res = t();
                 self.last_written = unique;
                 self.recs.push(Rec { thread: self.tid, main: self.main_phase, kind: Kind::WriteSec { seen, new: unique, prev, acq, rel }, inv, res });
+            }
+            TOp::WriteSecRo(n) => {
+                let Some(o) = self.owner() else { return };
+                let inv = t();
+                let g = o.write();
+                let acq = t();
+                let v1 = *g;
+                spin(n);
+                let v2 = *g;
+                let rel = t();
+                drop(g);
+                let res = t();
+                // judged like a read section (nothing else may happen inside either)
+                self.recs.push(Rec { thread: self.tid, main: self.main_phase, kind: Kind::ReadSec { v1, v2, acq, rel }, inv, res });
             }
             TOp::NextNow => {
                 let Some(sub) = self.sub.as_mut() else { return };
@@ -982,6 +998,7 @@ pub fn op(directed: bool) -> BoxedStrategy<TOp> {
             3 => Just(TOp::Get),
             2 => n().prop_map(TOp::ReadSec),
             2 => n().prop_map(TOp::WriteSec),
+            2 => n().prop_map(TOp::WriteSecRo),
             2 => Just(TOp::NextNow),
             2 => Just(TOp::Poll),
             2 => (1u8..4).prop_map(TOp::WaitNext),
